@@ -143,7 +143,10 @@ func ReplaceEnums(ana *analysis.Analysis, content string) string {
 	return reEnums.ReplaceAllStringFunc(content, func(s string) string {
 		s = s[2 : len(s)-1] // trim starting #[ and leading ]
 		typeName, varName, _ := strings.Cut(s, ".")
-		enum := ana.GetByName(typeName).(*analysis.Enum)
+		enum, ok := ana.GetByName(typeName).(*analysis.Enum)
+		if !ok {
+			panic(fmt.Sprintf("invalid enum placeholder %s: %s is not an enum type", s, typeName))
+		}
 		enumValue := enum.Get(varName)
 		return fmt.Sprintf("%s /* %s.%s */", enumValue.Const.Val().ExactString(), typeName, varName)
 	})
